@@ -130,6 +130,12 @@ pub fn judge(rt: &tokio::runtime::Runtime, r: &mut Report, case: &Case) {
             Some(Ev::Records(p)) => p.len(),
             _ => 0,
         };
+        if size > 65_535 && culprit.eq_ignore_ascii_case("error") {
+            // a message longer than a header value can hold cannot be framed; what the adapter does with that stream is not
+            // judged - such streams are issued so that whatever state the failed framing leaves behind meets the next streams
+            r.inconclusive("error message beyond the 64 KiB of a header value: the stream ends with an error (not judged)");
+            return;
+        }
         r.violated(format!("C15/stream-error-instead-of-message/{culprit}/{}", if size > 65_535 { "over-64KiB" } else { "small" }), wit(json!({"error": e, "frames_before": n_ok})));
         return;
     }
@@ -253,6 +259,7 @@ fn gen_event(g: &mut Rng, big: bool) -> Ev {
         _ => {
             let code = (*g.pick(&["InternalError", "OverMaxRecordSize", "NoSuchKey", "SlowDown", "VerifCustomCode", "X"])).to_owned();
             let message = match g.below(6) {
+                _ if g.chance(1, 40) => Some("M".repeat(65_536 + g.usize_below(9000))),
                 0 => None,
                 1 => Some(String::new()),
                 2 => Some("é <&> \"quoted\" \r\n 日本 \u{1F600}".to_owned()),
@@ -269,7 +276,7 @@ pub fn run(ctx: &RunCtx) -> i32 {
         property: "C15",
         level: "exploration",
         rule: "scripted select_object_content streams of 0..50 events of the five kinds with interleaved errors (known and custom codes; messages absent, empty, hostile, 60 000 bytes), Records payloads {0, 1, 65535, 65536, 1 MiB, random}, every Stats / Progress member pattern incl. absent details; the raw response body is decoded frame by frame with aws-smithy-eventstream's MessageFrameDecoder and each decoded message compared with the emitted event (message/event/content type headers, payload bytes, XML details read by the reference reader, order, count). A cell is (event kind, size class, position).".into(),
-        assumptions: vec!["error messages are kept below the 64 KiB limit of an event-stream header value".into()],
+        assumptions: vec!["a stream with an error message beyond the 64 KiB limit of an event-stream header value is issued now and then but not judged itself (it cannot be framed); the streams that follow it on the same thread are".into()],
         min_held: 2000,
         min_cells: 30,
         exhaustive: false,
